@@ -91,7 +91,7 @@ Error apply_range(BaseEmitter& e, CodeHolder& code, const Program& p, size_t fro
 
 // Canonical textual snapshot of everything observable in a holder: sections (table + bytes), labels, relocations,
 // unresolved fixup count, address table. Contains no heap addresses.
-std::string snapshot(const CodeHolder& code);
+std::string snapshot(const CodeHolder& code, bool ignore_orphan_labels = false);
 uint64_t snapshot_hash(const CodeHolder& code);
 
 // ---- Compiler programs (virtual registers) -------------------------------------------------------------------------
@@ -105,6 +105,8 @@ struct FuncParams {
   bool global_consts = true;
   bool stack = true;
   bool vec = true;
+  uint32_t vec_live = 0;         // x86: this many additional vector values stay live to the end (more than the register file holds -> vector spills)
+  bool avx = false;              // x86: the function uses AVX and enables it in its frame (the allocator then has to emit VEX moves / spills)
 };
 
 // Emits one complete function (add_func .. end_func) through the typed Compiler API. Returns false when a call
